@@ -161,6 +161,8 @@ def specs(tier):
     add("Isobaric", [], in_composite="C")
     add("GrandCanonical", [], bare_kind="swap")
     add("Isobaric", [], bare_kind="cell", value_moves=True)
+    add("Isobaric", [], bare_kind="cell", value_moves="composite", in_composite="V")
+    add("GrandCanonical", [], bare_kind="swap", value_moves="composite", in_composite="V")
     add("GrandCanonical", [["e", "E_trans"]], value_moves=True)
     add("Canonical", [["d", "D_ball"]], max_cycles=2)
     add("GrandCanonical", [["e", "E_trans"]], max_cycles=2)
@@ -202,11 +204,16 @@ def make(spec, ch):
         from quansino.moves.exchange import ExchangeMove
         from quansino.operations.cell import ShapeDeformation
 
-        partner = ExchangeMove(np.arange(len(sysm.atoms))) if spec["in_composite"] == "E" else CellMove(ShapeDeformation(0.04))
+        if spec["in_composite"] == "V":  # two distinct user moves that compare equal, inside one shipped composite
+            partner = ValueMove("user-move-2", "none")
+            object.__setattr__(partner, "chooser", ch)
+            sysm.other = partner
+        else:
+            partner = ExchangeMove(np.arange(len(sysm.atoms))) if spec["in_composite"] == "E" else CellMove(ShapeDeformation(0.04))
         mc.add_move(CompositeMove([bm, partner]), criteria=bc, name="bare")
     else:
         mc.add_move(bm, criteria=bc, name="bare")
-    if spec.get("value_moves"):  # a second, distinct object that compares equal to the first
+    if spec.get("value_moves") is True:  # a second, distinct object that compares equal to the first
         other = ValueMove("user-move-2", "none")
         object.__setattr__(other, "chooser", ch)
         mc.add_move(other, criteria=bc, name="bare-other")
